@@ -415,6 +415,15 @@ func TestC17Model(t *testing.T) {
 			o := rapid.IntRange(0, L-2).Draw(t, "so")
 			data[o] = byte(rapid.IntRange(0, 3).Draw(t, "hi"))
 		}
+		// and a few counts around the places where 2*n passes a power of
+		// two (16-bit arithmetic on the size of the array)
+		var planted []int
+		for i := rapid.IntRange(0, 3).Draw(t, "nPlanted"); i > 0 && L >= 2; i-- {
+			o := rapid.IntRange(0, L-2).Draw(t, "po")
+			v := rapid.SampledFrom([]int{0x7FFF, 0x8000, 0x8001, 0x8003, 0x80FF, 0x8100, 0x81FF, 0x8200, 0x8201, 0xFFFF, 0x4000, 0x0200, 0x0201}).Draw(t, "pv")
+			data[o], data[o+1] = byte(v>>8), byte(v)
+			planted = append(planted, o)
+		}
 		maxRead := rapid.SampledFrom([]int{0, 0, 1, 2, 3, 7, 100, 1000, 1023}).Draw(t, "maxRead")
 		eofEarly := rapid.Bool().Draw(t, "eofEarly")
 		r := newRunner(data, maxRead, eofEarly)
@@ -431,10 +440,17 @@ func TestC17Model(t *testing.T) {
 			"ReadInt16":       func(t *rapid.T) { fail(r.do(step{"ReadInt16", 0})) },
 			"ReadUint32":      func(t *rapid.T) { fail(r.do(step{"ReadUint32", 0})) },
 			"ReadUint16Slice": func(t *rapid.T) { fail(r.do(step{"ReadUint16Slice", 0})) },
-			"ReadBytes":       func(t *rapid.T) { fail(r.do(step{"ReadBytes", genSize().Draw(t, "n")})) },
-			"Read":            func(t *rapid.T) { fail(r.do(step{"Read", genBigSize().Draw(t, "n")})) },
-			"Pos":             func(t *rapid.T) { fail(r.do(step{"Pos", 0})) },
-			"Size":            func(t *rapid.T) { fail(r.do(step{"Size", 0})) },
+			"SliceAtPlantedCount": func(t *rapid.T) {
+				if len(planted) == 0 {
+					t.Skip("no planted count")
+				}
+				fail(r.do(step{"SeekPos", rapid.SampledFrom(planted).Draw(t, "at")}))
+				fail(r.do(step{"ReadUint16Slice", 0}))
+			},
+			"ReadBytes": func(t *rapid.T) { fail(r.do(step{"ReadBytes", genSize().Draw(t, "n")})) },
+			"Read":      func(t *rapid.T) { fail(r.do(step{"Read", genBigSize().Draw(t, "n")})) },
+			"Pos":       func(t *rapid.T) { fail(r.do(step{"Pos", 0})) },
+			"Size":      func(t *rapid.T) { fail(r.do(step{"Size", 0})) },
 			// two short patterns as one action each, so that they occur far
 			// more often than three independent draws would make them:
 			// a bulk read, a seek back into (or just before) what was read, a read there
